@@ -159,6 +159,48 @@ Proof.
   clear H. induction F as [|k t Hk Ft IH]; cbn; auto. rewrite Hk. cbn. exact IH.
 Qed.
 
+(* ---- round 5: the property-level reading of the results ----
+   [seen] blanks out the results the property text does not speak about (toBool, the character classifiers); the
+   statement below is what the check's property oracle enforces on the implementation, string_refines_values_thm
+   (exact, also for those results) is what model and implementation are compared on. *)
+Fixpoint seen_run (s : sstate) (ops : list op) (outs : list out) : list (option out) :=
+  match ops, outs with
+  | o :: rest, r :: rs => seen s o r :: seen_run (fst (spec_exec s o)) rest rs
+  | _, _ => []
+  end.
+
+Theorem string_refines_as_seen_thm : forall ops,
+  match spec_run sinit ops with
+  | Some (s, outs) => exists w outs', run winit ops = Ok (w, outs') /\
+                        seen_run sinit ops outs' = seen_run sinit ops outs /\ abs w = s /\ Inv w
+  | None => run winit ops = Err BadArg
+  end.
+Proof.
+  intros ops. pose proof (string_refines_values_thm ops) as R.
+  destruct (spec_run sinit ops) as [[s outs]|]; [|exact R].
+  destruct R as (w & E & A & I). exists w, outs. auto.
+Qed.
+
+(* the empty needle is found at every start position up to and including length(), and nowhere behind it *)
+Theorem empty_needle_found_up_to_length_thm : forall l start,
+  find_from (P_sub []) l start = (if (start <=? length l)%nat then Z.of_nat start else (-1)%Z).
+Proof.
+  intros l start. unfold find_from.
+  destruct (length l <? start) eqn:G.
+  - apply Nat.ltb_lt in G. destruct (start <=? length l) eqn:G2; [apply Nat.leb_le in G2; lia|reflexivity].
+  - apply Nat.ltb_ge in G. destruct (start <=? length l) eqn:G2; [|apply Nat.leb_gt in G2; lia].
+    destruct (skipn start l); cbn [find_first P_sub is_prefix]; rewrite Nat.add_0_r; reflexivity.
+Qed.
+
+(* a non-empty needle, a character, a character set are not found at start = length() *)
+Theorem nothing_else_at_length_thm : forall l,
+  (forall x needle, find_from (P_sub (x :: needle)) l (length l) = (-1)%Z) /\
+  (forall c, find_from (P_chr c) l (length l) = (-1)%Z) /\
+  (forall cs, find_from (P_any cs) l (length l) = (-1)%Z).
+Proof.
+  intros l. unfold find_from. rewrite Nat.ltb_irrefl, skipn_all. repeat split; intros; reflexivity.
+Qed.
+
 Theorem heap_invariant_thm : forall ops w outs, run winit ops = Ok (w, outs) ->
   (forall b k, nth_error (heap w) b = Some k -> bref k = count_occ handle_dec (vars w) (HBlock b)) /\
   (forall v b, nth_error (vars w) v = Some (HBlock b) -> exists k, nth_error (heap w) b = Some k /\ 1 <= bref k) /\
